@@ -33,7 +33,7 @@ Theorem C05_ambiguous :
     alookup p (n_opts (cur st)) = None ->
     (2 <= length (List.filter (pfx p) (n_opts (cur st))))%nat ->
     exists cands,
-      start_pair pf lower specs st tok (mkPair p a) = Err (mkErr EAmbiguous (msg_ambiguous tok cands) false) /\
+      start_pair pf lower specs st tok (mkPair p a) = Err (e_ambiguous tok cands) /\
       Sorted sle cands /\
       Permutation cands (keys (List.filter (pfx p) (n_opts (cur st)))).
 Proof. exact start_pair_ambiguous. Qed.
